@@ -1,0 +1,39 @@
+//go:build verif
+// +build verif
+
+package plan
+
+// Add-only exports for the verification harness in /verif (build tag verif).
+
+// VerifPlanSQLs returns the slice -> database -> statements map of a shard plan
+// (nil for other plans).
+func VerifPlanSQLs(p Plan) map[string]map[string][]string {
+	switch pl := p.(type) {
+	case *SelectPlan:
+		return pl.GetSQLs()
+	case *InsertPlan:
+		return pl.sqls
+	case *UpdatePlan:
+		return pl.sqls
+	case *DeletePlan:
+		return pl.sqls
+	case *ExplainPlan:
+		return pl.sqls
+	}
+	return nil
+}
+
+// VerifPlanRouteIndexes returns the routed sub-table indexes of a shard plan.
+func VerifPlanRouteIndexes(p Plan) ([]int, bool) {
+	switch pl := p.(type) {
+	case *SelectPlan:
+		return pl.GetRouteResult().GetShardIndexes(), true
+	case *InsertPlan:
+		return pl.GetRouteResult().GetShardIndexes(), true
+	case *UpdatePlan:
+		return pl.GetRouteResult().GetShardIndexes(), true
+	case *DeletePlan:
+		return pl.GetRouteResult().GetShardIndexes(), true
+	}
+	return nil, false
+}
